@@ -312,6 +312,13 @@ def check_hard_break_decorator(ctx: Ctx) -> None:
     # the multi-segment result: SEP.join(parts)
     joins = [(r, r.ast.value) for r in flow.cfg.returns() if isinstance(r.ast.value, ast.Call) and isinstance(r.ast.value.func, ast.Attribute)
              and r.ast.value.func.attr == "join" and isinstance(r.ast.value.func.value, ast.Constant) and len(r.ast.value.args) == 1]
+    if not joins:
+        # single-exit style: result = SEP.join(parts) ... return result
+        returned = {x.id for r in flow.cfg.returns() if r.ast.value is not None for x in ast.walk(r.ast.value) if isinstance(x, ast.Name)}
+        joins = [(n, n.ast.value) for n in flow.cfg.nodes if n.kind == "stmt" and isinstance(n.ast, ast.Assign) and len(n.ast.targets) == 1
+                 and isinstance(n.ast.targets[0], ast.Name) and n.ast.targets[0].id in returned and isinstance(n.ast.value, ast.Call)
+                 and isinstance(n.ast.value.func, ast.Attribute) and n.ast.value.func.attr == "join" and isinstance(n.ast.value.func.value, ast.Constant)
+                 and len(n.ast.value.args) == 1]
     ctx.require("R-HARDBREAK", "join of the wrapped segments in the hard-break decorator", len(joins), 1)
     for r, jc in joins:
         sep = jc.func.value.value
